@@ -449,33 +449,36 @@ theorem frame_updateTxs (A : ADB) (l : String) (p : ATx → Bool) (u : ATx → A
 theorem txKey_ledger (l : String) (id : Int) (r : ATx) (h : txKey l id r = true) : r.ledger = l := by
   simp [txKey] at h; exact h.2
 
+theorem sane_txInserted (A : ADB) (l : String) (tx : Tx) (h : Sane A) : Sane (aTxInserted A l tx) := by
+  unfold aTxInserted
+  constructor
+  · exact h.acct_lt
+  · exact h.acct_seq
+  · exact h.acct_key
+  · exact h.am_lt
+  · exact h.mv_lt
+  · exact h.mv_seq
+  · exact h.mv_acct
+  · intro t ht
+    simp only [aTxInsHist, List.mem_append, List.mem_singleton] at ht
+    rcases ht with ht | rfl
+    · exact Nat.lt_succ_of_lt (h.tx_lt t ht)
+    · exact Nat.lt_succ_self _
+  · simp only [aTxInsHist, List.pairwise_append, List.pairwise_cons, List.Pairwise.nil, List.mem_singleton]
+    exact ⟨h.tx_seq, ⟨by simp, trivial⟩, fun x hx y hy => by subst hy; exact h.tx_lt x hx⟩
+  · intro x hx
+    simp only [aTxInsHist, List.mem_append, List.mem_singleton] at hx
+    rcases hx with hx | rfl
+    · exact Nat.lt_succ_of_lt (h.tm_lt x hx)
+    · exact Nat.lt_succ_self _
+
 theorem sane_frame_insertTransaction (A : ADB) (l : String) (tx : Tx) (d : Val) (am : List (String × Meta)) (h : Sane A) :
     Sane (aInsertTransaction A l tx d am) ∧ aOther (aInsertTransaction A l tx d am) l = aOther A l := by
   unfold aInsertTransaction
-  have s1 : Sane (aTxInsHist { A with txs := A.txs ++ [aTxRow A.txSeq l tx], txSeq := A.txSeq + 1 } (aTxRow A.txSeq l tx)) := by
-    constructor
-    · exact h.acct_lt
-    · exact h.acct_seq
-    · exact h.acct_key
-    · exact h.am_lt
-    · exact h.mv_lt
-    · exact h.mv_seq
-    · exact h.mv_acct
-    · intro t ht
-      simp only [aTxInsHist, List.mem_append, List.mem_singleton] at ht
-      rcases ht with ht | rfl
-      · exact Nat.lt_succ_of_lt (h.tx_lt t ht)
-      · exact Nat.lt_succ_self _
-    · simp only [aTxInsHist, List.pairwise_append, List.pairwise_cons, List.Pairwise.nil, List.mem_singleton]
-      exact ⟨h.tx_seq, ⟨by simp, trivial⟩, fun x hx y hy => by subst hy; exact h.tx_lt x hx⟩
-    · intro x hx
-      simp only [aTxInsHist, List.mem_append, List.mem_singleton] at hx
-      rcases hx with hx | rfl
-      · exact Nat.lt_succ_of_lt (h.tm_lt x hx)
-      · exact Nat.lt_succ_self _
-  have f1 : aOther (aTxInsHist { A with txs := A.txs ++ [aTxRow A.txSeq l tx], txSeq := A.txSeq + 1 } (aTxRow A.txSeq l tx)) l = aOther A l := by
-    simp [aOther, aTxInsHist, List.filter_append, aTxRow]
-  obtain ⟨s2, f2⟩ := sane_frame_postings tx.postings _ (.int (aTxRow A.txSeq l tx).seq) l d tx.timestamp am s1
+  have s1 := sane_txInserted A l tx h
+  have f1 : aOther (aTxInserted A l tx) l = aOther A l := by
+    simp [aOther, aTxInserted, aTxInsHist, List.filter_append, aTxRow]
+  obtain ⟨s2, f2⟩ := sane_frame_postings tx.postings _ (.int A.txSeq) l d tx.timestamp am s1
   constructor
   · constructor
     · exact s2.acct_lt
@@ -491,7 +494,7 @@ theorem sane_frame_insertTransaction (A : ADB) (l : String) (tx : Tx) (d : Val) 
       simp only [List.mem_append, List.mem_singleton] at hx
       rcases hx with hx | rfl
       · exact s2.tm_lt x hx
-      · simp [aTxInsHist, aTxRow]
+      · simp [aTxInserted, aTxInsHist]
   · rw [← f1, ← f2]
     simp [aOther, List.filter_append]
 
